@@ -47,7 +47,9 @@ impl<TX> SendControler<TX> {
     }
 
     fn avaliable(&self) -> u64 {
-        self.max_data - self.sent_data
+        // After a rejected 0-RTT the peer's real limit may be below what was already sent:
+        // nothing is available until the limit has caught up.
+        self.max_data.saturating_sub(self.sent_data)
     }
 
     fn commit(&mut self, flow: u64)
